@@ -664,7 +664,7 @@ def a_direct(s, a):
     return [r[0], r[1].value if isinstance(r[1], Key) else r[1]]
 
 
-def pre_scale(s, a):
+def pre_scale(s, a, meta_seq=None):
     """L1 precondition: a fractional factor is only legal when it keeps every tick an integer (the library's tick domain is
     the integers; scale(0.5) on an odd wait would create half ticks, which no view conversion is required to preserve)."""
     f = a["factor"]
@@ -677,7 +677,29 @@ def pre_scale(s, a):
     except Exception:
         return True
     inv = round(1 / f)
-    return all((m.time % inv) == 0 for m in r if m.message_type is MT.WAIT)
+    if not all((m.time % inv) == 0 for m in r if m.message_type is MT.WAIT):
+        return False
+    # a fractional scale cuts the sequence at the bar lines of its meta sequence: a bar whose capacity is not a multiple of
+    # 1/factor (3/32 = 9 ticks, say) leaves odd pieces of waits and so half ticks, again outside the tick domain
+    meta = a.get("meta")
+    metas = [r]
+    if meta_seq is not None:
+        metas.append(_stored_msgs(meta_seq))
+    elif meta is not None and meta != "self":
+        try:
+            metas.append(_build(meta).rel._messages)
+        except Exception:
+            pass
+    for msgs in metas:
+        for m in msgs or []:
+            if m.message_type is MT.TIME_SIGNATURE and (24 * 4 * m.numerator // m.denominator) % inv:
+                return False
+    return True
+
+
+def _stored_msgs(seq):
+    a = observe.raw_abs(seq)
+    return a if a is not None else observe.raw_rel(seq)
 
 
 def pre_pad(s, a):
